@@ -487,6 +487,11 @@ def gen_case(rng, K, nmax):
             src['leaf']['amp'] = '3/2'
     if band['leaf']['leaf'] == 'empirical' and all(unq(v) == 0 for v in band['leaf']['vals']):
         band['leaf']['vals'][0] = '1/2'
+    if rng.random() < 0.25 and src['leaf']['leaf'] != 'constflux':
+        # a redshifted source, in either redshift convention (the scaling law must hold for it as for any other)
+        src = dict(src, z=q(rng.choice([F(1, 2), F(1), F(1, 4), F(-1, 4), F(3)])))
+        if rng.random() < 0.65:
+            src['ztype'] = 'conserve_flux'
     # brightness over many decades: the source itself 2^-120 .. 2^60 times as bright (seen by the model too) ...
     e1 = rng.randint(-120, 60) if rng.random() < 0.5 else 0
     if e1:
